@@ -185,6 +185,70 @@ Section Walk.
     end.
 End Walk.
 
+(* ---------- projection of the canonical serialization onto what ir.to_proto emits about structure: names,
+   op identifiers, connectivity by name, attribute names with nested graphs, initializer names, doc strings and
+   metadata_props.  The harness computes the same list from the ONNX proto produced by the implementation. *)
+Definition eo (o : option name) : N := match o with Some n => (n + 1)%N | None => 1%N end.  (* None and "" coincide *)
+Definition MK (k : N) : N := (1000000 + k)%N.
+Definition BADTOK : N := 999999%N.
+Definition proj_vname (v : option cvalue) : N := match v with Some c => eo (cv_name c) | None => BADTOK end.
+Definition proj_ref (r : option (option name)) : N := match r with Some o => eo o | None => BADTOK end.
+Definition proj_in (i : option (option (option name))) : N :=
+  match i with None => 1%N | Some r => proj_ref r end.
+(* serde sorts metadata_props by key; the key order is not part of the serialization: compared sorted by token *)
+Fixpoint ins_kv (kv : name * name) (l : list (name * name)) : list (name * name) :=
+  match l with [] => [kv] | x :: r => if N.leb (fst kv) (fst x) then kv :: l else x :: ins_kv kv r end.
+Definition proj_mp (m : option (list (name * name))) : list N :=
+  match m with
+  | Some l => flat_map (fun kv => [(fst kv + 1)%N; (snd kv + 1)%N]) (fold_right ins_kv [] l)
+  | None => [BADTOK]
+  end.
+Definition init_names (l : list (option cvalue)) : list N :=
+  flat_map (fun v => match v with
+                     | Some c => match cv_const c with Some _ => [eo (cv_name c)] | None => [] end
+                     | None => [BADTOK]
+                     end) l.
+
+Fixpoint proj_g (g : cgraph) : list N :=
+  match g with
+  | CGr nm ins outs inits nodes doc opset mp me =>
+      [MK 1; eo nm] ++ MK 2 :: map proj_vname ins ++ MK 3 :: map proj_ref outs ++ MK 4 :: init_names inits
+      ++ MK 5 :: flat_map proj_n nodes ++ [MK 6; eo doc] ++ MK 7 :: proj_mp mp ++ [MK 8]
+  | CGrBad => [BADTOK]
+  end
+with proj_n (n : cnode) : list N :=
+  match n with
+  | CNo nm dom op ov ver ins outs attrs doc mp me dev =>
+      [MK 10; eo nm; (op + 1)%N; (dom + 1)%N; (ov + 1)%N] ++ MK 11 :: map proj_in ins
+      ++ MK 12 :: map proj_vname outs ++ MK 13 :: flat_map proj_a attrs ++ [MK 14; eo doc] ++ MK 15 :: proj_mp mp
+      ++ [MK 16]
+  | CNoBad => [BADTOK]
+  end
+with proj_a (a : cattr) : list N :=
+  match a with
+  | CAV nm _ _ _ => [MK 20; (nm + 1)%N]
+  | CAR nm _ r _ => [MK 21; (nm + 1)%N; (r + 1)%N]
+  | CAG nm g _ => [MK 22; (nm + 1)%N] ++ proj_g g ++ [MK 23]
+  | CAGs nm gs _ => [MK 24; (nm + 1)%N] ++ flat_map proj_g gs ++ [MK 25]
+  | CABad => [BADTOK]
+  end.
+
+Definition proj_f (f : option (name * name * name * cgraph * list cattr)) : list N :=
+  match f with
+  | Some (dom, nm, ov, g, _) => [MK 30; (dom + 1)%N; (nm + 1)%N; (ov + 1)%N] ++ proj_g g ++ [MK 31]
+  | None => [BADTOK]
+  end.
+
+Definition proj_root (kind : nat) (h : id -> option cell) (fuel : nat) (r : id) : list N :=
+  match kind with
+  | 2%nat => proj_f (fcanon h fuel r)
+  | 3%nat => match mcanon h fuel r with
+             | Some (g, fs, _, _) => proj_g g ++ flat_map proj_f fs
+             | None => [BADTOK]
+             end
+  | _ => proj_g (gcanon h fuel r)
+  end.
+
 (* ---------- a case: heap before, what to clone, what the implementation did *)
 Record case := Case {
   c_cells : list (id * cell); c_next : id;
@@ -196,7 +260,9 @@ Record case := Case {
   c_after : list (id * cell);  (* implementation: dump of everything reachable from c_univ and the clone *)
   c_sorted : bool;             (* implementation-side check: no value of the cloned graph is used before it is defined *)
   c_ops : list (op * res unit);(* operations applied afterwards (implementation ids) with their outcome *)
-  c_final : list (id * cell)   (* implementation: dump after the operations *)
+  c_final : list (id * cell);  (* implementation: dump after the operations *)
+  c_proto : list N;            (* implementation: projection of to_proto(original) *)
+  c_proto_clone : list N       (* implementation: projection of to_proto(clone) (empty if the clone raised) *)
 }.
 
 Definition run_clone (c : case) : cst * res id :=
@@ -232,6 +298,8 @@ Definition no_use_before_def (st : cst) : bool :=
 Definition code (c : case) : nat :=
   let n0 := c_next c in
   let '(st, r) := run_clone c in
+  if negb (list_eqb N.eqb (proj_root (c_kind c) (fun x => assoc x (c_cells c)) (Pos.to_nat n0) (c_root c))
+                    (c_proto c)) then 7 else
   match r, c_res c with
   | Raise e, Raise e' => if exn_eqb e e' then 0 else 1
   | Ok _, Raise _ | Raise _, Ok _ => 2
@@ -246,6 +314,9 @@ Definition code (c : case) : nat :=
           if (match c_kind c with
               | 0%nat | 1%nat => negb (Bool.eqb (no_use_before_def st) (c_sorted c))
               | _ => false end) then 4
+          else if negb (list_eqb N.eqb (proj_root (match c_kind c with 1%nat => 0%nat | k => k end)
+                                                   (cells (hp st)) (Pos.to_nat (next (hp st))) g')
+                                 (c_proto_clone c)) then 8
           else
             match run_ops (hp st) (bwd l) (c_ops c) with
             | None => 5
